@@ -115,8 +115,9 @@ type ListObs struct {
 }
 
 type StepObs struct {
-	Ok    bool      `json:"ok"`
-	Lists []ListObs `json:"lists"`
+	Ok     bool      `json:"ok"`
+	DescOk bool      `json:"descOk"`
+	Lists  []ListObs `json:"lists"`
 }
 
 type Obs struct {
@@ -198,8 +199,8 @@ func init() {
 			"schemaVersion": 2,
 			"mediaType":     mtImage,
 			"config":        map[string]any{"mediaType": "application/vnd.oci.image.config.v1+json", "digest": digest.FromString(fmt.Sprint("config", k)).String(), "size": 7 + k},
-			"layers": []any{map[string]any{"mediaType": "application/vnd.oci.image.layer.v1.tar", "digest": digest.FromString(fmt.Sprint("layer", k)).String(), "size": 100 + k}},
-			"annotations": map[string]string{"name": strings.Repeat("s", k+1)},
+			"layers":        []any{map[string]any{"mediaType": "application/vnd.oci.image.layer.v1.tar", "digest": digest.FromString(fmt.Sprint("layer", k)).String(), "size": 100 + k}},
+			"annotations":   map[string]string{"name": strings.Repeat("s", k+1)},
 		}
 		b, _ := json.Marshal(m)
 		subjectBytes[k] = b
@@ -220,6 +221,7 @@ type world struct {
 	manDigest  map[int]digest.Digest
 	manSize    map[digest.Digest]int64
 	pushedOps  map[int]*Op
+	lastDescOk bool    // the last PushSignature returned descriptors of what was pushed
 	keep       *keeper // history of everything the repository returned (nil: not kept)
 }
 
@@ -408,8 +410,13 @@ func (w *world) exec(o *Op) (bool, error) {
 			o.Msize = 0
 			return false, nil
 		}
-		if blobDesc.Digest != w.blobDig(o.Blob) || blobDesc.MediaType != o.Mt || blobDesc.Size != o.Bsize {
-			return false, fmt.Errorf("PushSignature returned blob descriptor %+v for blob %d", blobDesc, o.Blob)
+		// what PushSignature hands back must describe what was pushed (an observable, not a harness failure)
+		w.lastDescOk = blobDesc.Digest == w.blobDig(o.Blob) && blobDesc.MediaType == o.Mt && blobDesc.Size == o.Bsize &&
+			manDesc.MediaType == mtImage
+		for _, kv := range o.Annos {
+			if manDesc.Annotations[kv.K] != kv.V {
+				w.lastDescOk = false
+			}
 		}
 		if _, dup := w.manByDig[manDesc.Digest]; dup {
 			return false, fmt.Errorf("two operations produced the same manifest digest %s", manDesc.Digest)
@@ -626,11 +633,35 @@ func (g *gen) envSize() int64 {
 	}
 }
 
+// legal envelope media types that are not in the canonical lower-case, parameter-free form
+var oddMediaTypes = []string{
+	`application/cose; cose-type="cose-sign1"`, "application/cose;cose-type=cose-sign1", "application/cose ; cose-type=cose-sign1",
+	"application/COSE", "Application/Jose+JSON", "application/jose+json; charset=utf-8", "application/jose+json;charset=UTF-8",
+	"application/vnd.example.Envelope.v1+json", "application/vnd.cncf.notary.signature", "application/x.notary-test; a=1; b=\"two words\"",
+	"APPLICATION/VND.EXAMPLE.SIG", "application/octet-stream", "text/plain; charset=us-ascii",
+}
+
+// legal RFC 3339 values of the created annotation (all accepted by time.Parse(time.RFC3339, ..))
+var createdForms = []string{
+	"2023-04-05T06:07:08Z", "2001-01-01T00:00:00+02:00", "2023-03-14T16:10:02+08:00", "2023-03-14T08:10:02.5Z",
+	"2023-03-14T01:10:02.123456789-07:00", "2023-03-14T08:10:02+00:00", "1999-12-31T23:59:59-00:00", "2024-02-29T12:00:00.000Z",
+	"2023-03-14T08:10:02.10+05:30",
+}
+
+// annotation values of unusual but legal shape
+var oddValues = []string{
+	"", " leading and trailing ", "UPPER lower", "tab\there", "line\nbreak", `quote " backslash \\ slash /`, "ünïcödé 署名 ✓",
+	"<html>&amp;</html>", "0", "null", "true", `{"json":"inside"}`, "  ", "a=b;c=d", "sha256:0000",
+}
+
 func (g *gen) envMt() string {
-	if g.r.Intn(2) == 0 {
+	switch g.r.Intn(5) {
+	case 0, 1:
 		return mtJose
+	case 2:
+		return mtCose
 	}
-	return mtCose
+	return oddMediaTypes[g.r.Intn(len(oddMediaTypes))]
 }
 
 func (g *gen) annos(allowCreated bool) []KV {
@@ -648,10 +679,25 @@ func (g *gen) annos(allowCreated bool) []KV {
 			continue
 		}
 		v := fmt.Sprintf("v%d", g.r.Intn(50))
+		if g.r.Intn(3) == 0 {
+			v = oddValues[g.r.Intn(len(oddValues))]
+		}
 		if k == ocispec.AnnotationCreated {
-			v = []string{"2023-04-05T06:07:08Z", "2001-01-01T00:00:00+02:00"}[g.r.Intn(2)]
+			v = createdForms[g.r.Intn(len(createdForms))]
 		}
 		out = append(out, KV{k, v})
+	}
+	// a created annotation in one of its legal forms on every fourth annotation set
+	if allowCreated && g.r.Intn(4) == 0 {
+		has := false
+		for _, kv := range out {
+			if kv.K == ocispec.AnnotationCreated {
+				has = true
+			}
+		}
+		if !has {
+			out = append(out, KV{ocispec.AnnotationCreated, createdForms[g.r.Intn(len(createdForms))]})
+		}
 	}
 	sort.Slice(out, func(i, j int) bool { return out[i].K < out[j].K })
 	return out
@@ -909,11 +955,12 @@ func runCase(c *common.Ctx, n int, in *Input, nSubj int, sizes map[int]int64, pr
 	obs = Obs{Steps: []StepObs{}, Probes: []FetchObs{}, Reopened: []ListObs{}, RaceOks: []bool{}, RaceList: ListObs{Sigs: []SigObs{}}, Cancelled: []CtxObs{}, Retained: true, Unaliased: true}
 	for k := range in.Ops {
 		o := &in.Ops[k]
+		w.lastDescOk = true
 		ok, err := w.exec(o)
 		if err != nil {
 			return obs, fmt.Errorf("op %d (%s): %w", k, o.flavour, err)
 		}
-		so := StepObs{Ok: ok, Lists: []ListObs{}}
+		so := StepObs{Ok: ok, DescOk: w.lastDescOk, Lists: []ListObs{}}
 		for _, q := range in.Queries {
 			so.Lists = append(so.Lists, w.listObs(w.repo, w.tgt, q))
 		}
@@ -1118,6 +1165,14 @@ func count(c *common.Ctx, in *Input, obs *Obs) {
 	pushes := 0
 	for _, o := range in.Ops {
 		c.Count("op:" + o.flavour)
+		if o.Kind == "push" && o.Mt != mtJose && o.Mt != mtCose {
+			c.Count("push with a non-canonical envelope media type")
+		}
+		for _, kv := range o.Annos {
+			if o.Kind == "push" && kv.K == ocispec.AnnotationCreated && !strings.HasSuffix(kv.V, ":08Z") {
+				c.Count("push with created in a non-UTC-seconds form")
+			}
+		}
 		if o.Kind == "push" {
 			pushes++
 		}
@@ -1250,6 +1305,29 @@ func lookAlikeScenario(g *gen, mt string) []Op {
 
 // fixedScenarios make sure every run contains each hostile shape at least once.
 var fixedScenarios = []func(g *gen) []Op{
+	func(g *gen) []Op { // every non-canonical envelope media type, pushed over two subjects
+		var ops []Op
+		for i, mt := range oddMediaTypes {
+			o := g.push(subjectDesc(i%2), "push:media-type-not-canonical")
+			o.Mt = mt
+			ops = append(ops, o)
+		}
+		return ops
+	},
+	func(g *gen) []Op { // every form of the created annotation and every unusual annotation value
+		var ops []Op
+		for i, c := range createdForms {
+			o := g.push(subjectDesc(i%3), "push:created-form")
+			o.Annos = []KV{{"a.first", oddValues[i%len(oddValues)]}, {ocispec.AnnotationCreated, c}}
+			ops = append(ops, o)
+		}
+		for i := len(createdForms); i < len(oddValues); i++ {
+			o := g.push(subjectDesc(i%3), "push:odd-annotation-value")
+			o.Annos = []KV{{"org.example.build", oddValues[i]}, {"zz.last", oddValues[(i+3)%len(oddValues)]}}
+			ops = append(ops, o)
+		}
+		return ops
+	},
 	func(g *gen) []Op { // every look-alike artifact type, image manifest branch
 		return lookAlikeScenario(g, mtImage)
 	},
